@@ -47,8 +47,10 @@ def corrupt(rng, xml_text):
         c = rng.choice(conts)
         cset.append(copy.deepcopy(c))
         # the library tolerates an identical duplicate unless the container is looked up by name (base / nested): then 2 matches
-        referenced = any(b.get("containerRef") == c.get("name") for b in cset.iter(q("BaseContainer"), q("ContainerRefEntry")))
-        must = referenced
+        # the library tolerates an identical duplicate; a reference to the name is only a problem (two matches) when it is
+        # resolved through the document, i.e. before the container is in the lookup — that depends on the order, so no
+        # outcome is demanded here beyond model = implementation
+        must = False
     elif kind == "dup_container_changed":
         c = copy.deepcopy(rng.choice(conts))
         c.set("abstract", "false" if c.get("abstract") == "true" else "true")
@@ -134,13 +136,15 @@ def reorder(rng, xml_text):
         inner = [c for c in conts if c.get("name") in bases and c.get("name") != "CCSDSPacket"]
         if leaves and inner:
             leaf, b = rng.choice(leaves), rng.choice(inner)
-            # only when it does not create a cycle: the leaf must not (transitively) inherit from b
-            anc, cur = set(), leaf
-            while cur is not None and cur.find(q("BaseContainer")) is not None:
-                nm = cur.find(q("BaseContainer")).get("containerRef")
-                anc.add(nm)
-                cur = next((c for c in conts if c.get("name") == nm), None)
-            if b.get("name") not in anc:
+            # only when it does not create a cycle: b must not reach the leaf through base or nesting references
+            refs = {c.get("name"): {r.get("containerRef") for r in c.iter(q("BaseContainer"), q("ContainerRefEntry"))} for c in conts}
+            seen, todo = set(), [b.get("name")]
+            while todo:
+                x = todo.pop()
+                if x not in seen:
+                    seen.add(x)
+                    todo.extend(refs.get(x, ()))
+            if leaf.get("name") not in seen:
                 e = ET.SubElement(leaf.find(q("EntryList")), q("ContainerRefEntry"))
                 e.set("containerRef", b.get("name"))
     for c in conts:
